@@ -30,11 +30,11 @@ BOUNDS = {
 ASSUMPTIONS = [
     "np.int64(text)/np.float64(text) accept exactly Python's int()/float() grammar and return the number the text denotes (contract stub, validated against numpy on ~70000 short strings each run)",
     "finite <=> |value| < 2**1024*(1-2**-54): decimal-exponent model validated on the same strings plus boundary literals",
-    "integer literals longer than 18 digits (int64 overflow) are outside the bound",
+    "int64 range: literals of 18-20 digits are covered by fixed-shape tasks (all digits symbolic) with an exact range model; longer ones are outside the bound",
     "a ',' counts as decimal mark only between two digits (lasio's documented comma-decimal-mark policy)",
     "non-Latin-1 characters (e.g. Arabic-Indic digits) are outside the alphabet bound",
 ]
-WITNESS_TARGETS = ["int-branch", "float-branch", "non-finite-fallback", "comma-substituted", "api-uwi-exempt", "verbatim-text"]
+WITNESS_TARGETS = ["int-branch", "float-branch", "non-finite-fallback", "comma-substituted", "api-uwi-exempt", "verbatim-text", "integer-too-large-for-int64-becomes-float"]
 EXCLUSIONS = {}
 
 # independent recogniser of plain decimal literals (ASCII)
@@ -44,7 +44,13 @@ LIT_INT = r"[+-]?[0-9]+\Z"
 
 def tasks(tier):
     b = BOUNDS[tier]
-    return [{"name": "%s/%s" % (t, v), "params": {"title": t, "version": v, "vcap": b["value_cap"], "mcap": b["mnemonic_cap"]}} for t in b["titles"] for v in b["versions"]]
+    out = [{"name": "%s/%s" % (t, v), "params": {"title": t, "version": v, "vcap": b["value_cap"], "mcap": b["mnemonic_cap"]}} for t in b["titles"] for v in b["versions"]]
+    # long integer literals around the int64 boundary: sign x number of digits fixed per task, digits symbolic
+    for sign in ("", "-", "+"):
+        for nd in (18, 19, 20):
+            for t in (["~Well", "~Parameter"] if tier == "quick" else ["~Version", "~Well", "~Parameter", "~Xyz"]):
+                out.append({"name": "longint/%s%dd/%s" % (sign or "u", nd, t), "params": {"title": t, "version": 2.0, "long": [sign, nd], "mcap": b["mnemonic_cap"]}})
+    return out
 
 
 def value_slot(title, version):
@@ -55,12 +61,20 @@ def value_slot(title, version):
 
 
 def harness(ns, params):
-    title, version, vcap, mcap = params["title"], params["version"], params["vcap"], params["mcap"]
+    title, version, vcap, mcap = params["title"], params["version"], params.get("vcap"), params["mcap"]
 
     def run():
         A = core.assume
-        x = SymStr.fresh("x", vcap)
         m = SymStr.fresh("m", mcap, minlen=1)
+        if "long" in params:
+            sign, nd = params["long"]
+            dg = SymStr.fresh("dg", nd, fixed_len=nd)
+            A(allc(dg, lambda c: z.in_range_c(c, 48, 57)))
+            from symlas.values import concat
+
+            x = SymStr.lift(concat([sign, dg]))
+        else:
+            x = SymStr.fresh("x", vcap)
         for s in (x, m):
             A(allc(s, printable))
             A(is_stripped(s))
@@ -71,7 +85,11 @@ def harness(ns, params):
         parser = ns.reader.SectionParser(title, version=version)
         keys = {"name": m, "unit": "", "value": "filler", "descr": "filler"}
         keys[value_slot(title, version)] = x
-        item = parser(**keys)
+        try:
+            item = parser(**keys)
+        except Exception as e:
+            core.oblige("conversion-does-not-raise", False, info=repr(e)[:200])
+            return {"observed": {"kind": "raised", "value": type(e).__name__}}
         r = item.value
         mu = SymStr.lift(m.upper())
         exempt = z.Or(mu.eq_expr("API"), mu.eq_expr("UWI"))
@@ -90,7 +108,9 @@ def harness(ns, params):
             core.witness("int-branch" if r.kind == "int" else "float-branch")
             core.witness("comma-substituted", B(x.contains(",")))
             core.oblige("number-only-for-finite-literal", should_be_number)
-            core.oblige("integer-iff-integer-literal", lit_int if r.kind == "int" else z.Not(lit_int))
+            fits = symnum.int_fits64(x) if x.cap <= 24 else True
+            core.witness("integer-too-large-for-int64-becomes-float", z.And(lit_int, z.Not(fits)) if r.kind == "float" else False)
+            core.oblige("integer-iff-integer-literal-that-fits-64-bits", z.And(lit_int, fits) if r.kind == "int" else z.Not(z.And(lit_int, fits)))
             core.oblige("value-equals-literal", SymStr.lift(r.text).eq_expr(xd))
             obs = {"kind": r.kind, "value": r}
         elif isinstance(r, (str, SymStr)):
@@ -118,7 +138,10 @@ def replay(i):
     parser = R.SectionParser(title, version=version)
     keys = {"name": m, "unit": "", "value": "filler", "descr": "filler"}
     keys[value_slot(title, version)] = x
-    r = parser(**keys).value
+    try:
+        r = parser(**keys).value
+    except Exception as e:
+        return {"ok": False, "detail": "%s v%s: %s value %r raised %r" % (title, version, m, x, e), "observed": {"kind": "raised", "value": type(e).__name__}}
     is_lit = re.match(LIT, x) is not None
     is_int = re.match(LIT_INT, x) is not None
     val = None
